@@ -56,6 +56,23 @@ def check_rules(case: typing.Any, ctx: Ctx) -> Info:
             pydsdl.read_namespace, root, [], allow_unregulated_fixed_port_id=model["allow_unregulated"],
             allowed=(pydsdl.InvalidDefinitionError,), what="read",
         )
+        edited = None
+        uses_deps = sorted({s_["type"]["dep"] for s_ in model["statements"] if s_["s"] in ("field", "const") and s_["type"].get("base") == "dep" and s_["type"].get("dep") in rg.DEPS})
+        if uses_deps and case.get("edit_dependency", 1):
+            # a dependency is edited in place - it becomes deprecated, or stops being so - while the definition under test stays as
+            # it is: whether the definition is (still) legal is decided against the dependency as it is now
+            table = dict(rg.DEP_TABLE)
+            for name in uses_deps:
+                dep, spec, src = rg.DEPS[name]
+                new_src = src.replace("@deprecated\n", "") if dep else "@deprecated\n" + src
+                with open(os.path.join(folder, name + ".1.0.dsdl"), "w") as f:
+                    f.write(new_src)
+                table[name] = (not dep, spec)
+            res3, ex3 = guarded(pydsdl.read_namespace, root, [], allow_unregulated_fixed_port_id=model["allow_unregulated"], allowed=(pydsdl.InvalidDefinitionError,), what="read:dependency-edited")
+            edited = (rules.validate(model, table), ex3, uses_deps)
+            for name in uses_deps:
+                with open(os.path.join(folder, name + ".1.0.dsdl"), "w") as f:
+                    f.write(rg.DEPS[name][2])
         flipped = None
         if model["port"] is not None:
             # the same files once more with the other setting of the flag: the verdict is a function of the definition and the
@@ -66,6 +83,13 @@ def check_rules(case: typing.Any, ctx: Ctx) -> Info:
     finally:
         ctx.cleanup(d)
     where = "%s/%s:\n%s" % ("/".join([model["root"]] + model["ns"]), fn, text)
+    if edited is not None:
+        v3, ex3, which = edited
+        w3 = where + "\n(second read after the dependencies %s had their @deprecated toggled in place)" % which
+        if v3 is None:
+            require(ex3 is None, "valid-definition-rejected:after-dependency-edit", "accepted", "%s: %s" % (type(ex3).__name__, str(ex3)[-300:]), w3)
+        else:
+            require(ex3 is not None, "invalid-definition-accepted:after-dependency-edit:" + v3, "InvalidDefinitionError (%s)" % v3, "accepted", w3)
     if flipped is not None:
         v2, ex2 = flipped
         w2 = where + "\n(second call in the same process, allow_unregulated_fixed_port_id=%s after %s)" % (not model["allow_unregulated"], model["allow_unregulated"])
